@@ -9,6 +9,7 @@ import (
 	"math/big"
 	"net/netip"
 	"regexp"
+	"sort"
 	"strconv"
 	"strings"
 	"sync"
@@ -424,6 +425,57 @@ func evalRBAC(rb *rbacpb.RBAC, r *request) bool {
 		return !matched
 	}
 	return true // LOG
+}
+
+// extAuthzAsked walks the chain the way Envoy does for the CUSTOM action: an RBAC filter evaluates its shadow
+// rules and, when one matches, writes the name of the matching policy (Envoy keeps the policies in a map
+// ordered by name: the first in that order) to its dynamic metadata under <shadow prefix>shadow_effective_policy_id;
+// an ext_authz filter is consulted when its REAL filter_enabled_metadata matcher holds on what has been
+// written so far. Returns the consulted ext_authz filters, named by the provider part of the id prefix they
+// look for, in chain order.
+func extAuthzAsked(fs []*builtFilter, r *request) []string {
+	type key struct{ filter, k string }
+	written := map[key]string{}
+	var order []key
+	var out []string
+	for _, f := range fs {
+		if f.extAuthz != nil {
+			q := *r
+			q.meta = nil
+			for _, k := range order {
+				q.meta = append(q.meta, metaEntry{filter: k.filter, path: []string{k.k}, val: metaVal{s: written[k]}})
+			}
+			if evalMeta(f.extAuthz, &q) {
+				label := "?" + canonMeta(f.extAuthz)
+				if pm, ok := f.extAuthz.GetValue().GetMatchPattern().(*matcherpb.ValueMatcher_StringMatch); ok {
+					if pre := pm.StringMatch.GetPrefix(); strings.HasPrefix(pre, "istio-ext-authz-") {
+						label = strings.TrimPrefix(pre, "istio-ext-authz-")
+					}
+				}
+				out = append(out, label)
+			}
+			continue
+		}
+		if f.shadow == nil {
+			continue
+		}
+		names := make([]string, 0, len(f.shadow.Policies))
+		for n := range f.shadow.Policies {
+			names = append(names, n)
+		}
+		sort.Strings(names)
+		for _, n := range names {
+			if evalPolicy(f.shadow.Policies[n], r) {
+				k := key{f.name, f.shadowPrefix + "shadow_effective_policy_id"}
+				if _, seen := written[k]; !seen {
+					order = append(order, k)
+				}
+				written[k] = n
+				break
+			}
+		}
+	}
+	return out
 }
 
 // evalFilters: ext_authz filters of the CUSTOM action are taken to allow (the external authorizer
